@@ -220,6 +220,9 @@ class Model:
             acc = set(d['s'] for d in exact)
             acc.update(d['s'] for d in self.ranges
                        if d['lo'] == v and d['hi'] == v)
+            # a range with an undetermined end may turn out to be v..v
+            acc.update(d['s'] for d in self.ranges
+                       if not self.determined(d) and v in (d['lo'], d['hi']))
             return acc, ('exact', exact[0])
         certain = [d for d in self.ranges if self.determined(d) and
                    d['lo'] <= v <= d['hi']]
@@ -437,12 +440,15 @@ def mapping_recipe(draw, types, valid_only=False):
                 seed=draw(st.integers(0, 2 ** 32 - 1)))
 
 
-def small_strategy():
-    return mapping_recipe(['uint8', 'sint8', 'uint16', 'sint16'])
+# 16-bit mappings cost up to 1 s each (65536 lookups, most of them raising
+# ValueError), so they get a smaller share
+TYPE_MIX = ['uint8'] * 16 + ['sint8'] * 16 + ['uint16', 'sint16'] + \
+    ['uint32', 'sint32', 'uint64', 'sint64'] * 8
+SMALL_TYPES = ('uint8', 'sint8', 'uint16', 'sint16')
 
 
-def wide_strategy():
-    return mapping_recipe(['uint32', 'sint32', 'uint64', 'sint64'])
+def mapping_strategy():
+    return mapping_recipe(TYPE_MIX)
 
 
 # ---------------------------------------------------------------------------
@@ -473,25 +479,38 @@ class _Once:
             self.ctx.fail(sig, detail)
 
 
-def _entry_of_string(model, s):
-    for d in model.ent:
-        if d['s'] == s:
+def _entry_of_string(model, s, v=None):
+    "entry that has Values string s (the one that explains v, if several)"
+    ds = [d for d in model.ent if d['s'] == s]
+    if not ds:
+        return None
+    for d in ds:
+        if d['kind'] != 'u' and v is not None and \
+                model.span(d)[0] <= v <= model.span(d)[1]:
             return d
-    return None
+    for d in ds:
+        if d['kind'] == 'u':
+            return d
+    return ds[0]
+
+
+def _how(how):
+    "how an end was obtained, without the notation"
+    return how.split('-')[0] if how.startswith('explicit') else how
 
 
 def _pos(model, d, v):
     lo, hi = model.span(d)
     if v == lo:
-        return 'at-low-end(%s)' % d['lo_how']
+        return 'at-low-end(%s)' % _how(d['lo_how'])
     if v == hi:
-        return 'at-high-end(%s)' % d['hi_how']
+        return 'at-high-end(%s)' % _how(d['hi_how'])
     if lo < v < hi:
         return 'inside'
     if v == lo - 1:
-        return 'one-below-low-end(%s)' % d['lo_how']
+        return 'one-below-low-end(%s)' % _how(d['lo_how'])
     if v == hi + 1:
-        return 'one-above-high-end(%s)' % d['hi_how']
+        return 'one-above-high-end(%s)' % _how(d['hi_how'])
     return 'outside'
 
 
@@ -503,7 +522,7 @@ def _classify_tovalues(model, v, got, acc, why):
         if why[0] == 'range':
             return 'tovalues:range-member-rejected:' + _pos(model, why[1], v)
         return 'tovalues:unclaimed-entry-not-used'
-    d = _entry_of_string(model, got)
+    d = _entry_of_string(model, got, v)
     if d is None:
         return 'tovalues:string-not-in-Values'
     gk = {'s': 'single', 'r': 'range', 'u': 'unclaimed'}[d['kind']]
@@ -550,9 +569,10 @@ def _bin_ok(model, d, got):
         ok = isinstance(got, int) and not isinstance(got, bool) and \
             got == d['lo']
         return ok, 'single-value-wrong(%s)' % d['lo_how']
-    if model.determined(d) and d['lo'] == d['hi'] and \
-            isinstance(got, int) and got == d['lo']:
-        return True, ''
+    if isinstance(got, int) and not isinstance(got, bool):
+        # a range whose ends are equal may be shown as the number
+        ok = d['lo'] in (None, got) and d['hi'] in (None, got)
+        return ok, 'range-entry-not-a-pair'
     if not (isinstance(got, tuple) and len(got) == 2 and
             all(isinstance(x, int) for x in got)):
         return False, 'range-entry-not-a-pair'
@@ -577,9 +597,15 @@ def check_mapping(ctx, rec, vm, model, exhaustive):
     # --- tovalues
     claims = [model.claim(a) for a, _ in segs]
     if exhaustive:
+        tovalues = vm.tovalues
         for (a, b), (acc, why) in zip(segs, claims):
             for v in range(a, b):
-                _check_tovalues(once, vm, model, v, acc, why)
+                try:
+                    got = tovalues(v)
+                except ValueError:
+                    got = RAISE
+                if got not in acc:
+                    _check_tovalues(once, vm, model, v, acc, why)
             nvals += b - a
     points = []
     for (a, b), cl in zip(segs, claims):
@@ -608,7 +634,7 @@ def check_mapping(ctx, rec, vm, model, exhaustive):
     if good:
         for form in (list, tuple):
             arg = form(T(v) if k % 2 else v for k, (v, _) in enumerate(good))
-            got = vm.tovalues(arg)
+            got = _tv(vm, arg)
             if not isinstance(got, list) or len(got) != len(good) or \
                     any(g not in cl[0] for g, (_, cl) in zip(got, good)):
                 once.fail('tovalues:list-form-differs-from-single-lookups',
@@ -870,12 +896,8 @@ def _redec(e):
     return e
 
 
-def small_oracle(ctx, rec):
-    mapping_oracle(ctx, rec, exhaustive=True)
-
-
-def wide_oracle(ctx, rec):
-    mapping_oracle(ctx, rec, exhaustive=False)
+def mapping_oracle_all(ctx, rec):
+    mapping_oracle(ctx, rec, exhaustive=rec['type'] in SMALL_TYPES)
 
 
 # ---------------------------------------------------------------------------
@@ -978,13 +1000,13 @@ def malformed_oracle(ctx, rec):
         ctx.fail_exc(exc, 'malformed')
         return
     except Exception as exc:  # pylint: disable=broad-except
-        if what in ('null-valuemap', 'null-values') and \
+        if what in ('null-valuemap', 'null-values', 'null-entry') and \
                 isinstance(exc, TypeError):
-            ctx.fail('malformed:TypeError-for-NULL-qualifier-value',
-                     '%s: %r' % (what, exc))
-        elif what == 'null-entry' and isinstance(exc, TypeError):
-            ctx.fail('malformed:TypeError-for-NULL-ValueMap-item',
-                     'ValueMap %r: %r' % (valuemap, exc))
+            # one root cause: NULL is not expected anywhere in the two
+            # qualifier values
+            ctx.fail('malformed:TypeError-for-NULL-qualifier-value-or-item',
+                     '%s: ValueMap %r Values %r: %r' % (what, valuemap,
+                                                        values, exc))
         else:
             ctx.fail_exc(exc, 'malformed')
         return
@@ -1008,10 +1030,8 @@ def malformed_oracle(ctx, rec):
 
 
 SUBCHECKS = [
-    Sub('small_exhaustive', strategy=small_strategy, oracle=small_oracle,
-        quick=(16, 120), thorough=(16, 4000), budget=(70, 1200)),
-    Sub('wide_sampled', strategy=wide_strategy, oracle=wide_oracle,
-        quick=(8, 400), thorough=(16, 16000), budget=(70, 1200)),
+    Sub('mapping', strategy=mapping_strategy, oracle=mapping_oracle_all,
+        quick=(16, 300), thorough=(16, 12000), budget=(70, 1200)),
     Sub('malformed', strategy=malformed_recipe, oracle=malformed_oracle,
-        quick=(8, 600), thorough=(16, 20000), budget=(70, 1200)),
+        quick=(8, 400), thorough=(16, 20000), budget=(70, 1200)),
 ]
